@@ -1489,6 +1489,7 @@ class CParser:
     # ------------------------------------------------------------------
     # BNF: type_name : specifier_qualifier_list abstract_declarator_opt
     def _parse_type_name(self) -> c_ast.Typename:
+        first_tok = self._peek()
         spec = self._parse_specifier_qualifier_list()
         decl = self._parse_abstract_declarator_opt()
 
@@ -1497,6 +1498,10 @@ class CParser:
             coord = decl.coord
         elif spec["type"]:
             coord = spec["type"][0].coord
+        elif first_tok is not None:
+            # Only alignment specifiers and no type: an error, but one that
+            # should still be reported with a location.
+            coord = self._tok_coord(first_tok)
 
         typename = c_ast.Typename(
             name="",
